@@ -23,10 +23,14 @@ package utils
 //@   nomod
 //@ func ReadEnvFile
 //@   nomod
+// fileExists(p): what os.Stat says about p — a function of the path (the file system is assumed not to
+// change while a configuration is loaded; statErr / isNotExist are declared in /verif/libspec/os.spec)
+//@ pred fileExists(p string) := !isNotExist(statErr(p))
 //@ func IsURL
 //@   nomod
 //@ func FileExists
 //@   nomod
+//@   ensures result == fileExists(file)
 // cwd(): the directory taskctl was started in (declared with os.Getwd in /verif/libspec/os.spec)
 //@ func MustGetwd
 //@   nomod
